@@ -773,6 +773,9 @@ pub fn property_c18() -> Property {
     Property {
         id: "C18",
         level: "exploration",
-        parts: vec![Box::new(PropPart(C18))],
+        parts: vec![
+            Box::new(PropPart(C18)),
+            Box::new(PropPart(crate::props::c18rt::C18Real)),
+        ],
     }
 }
